@@ -161,4 +161,34 @@ PROPS = {
         "schedules are only sampled",
         assumptions=["operations on disjoint paths are independent (kernel file system)", "CPython audit events cover every mutation bio2zarr/zarr perform (open, mkdir, rename, remove, rmdir)"],
     ),
+    "C05": dict(
+        units=[],
+        props_files=["Props/C05.v"],
+        driver="c05",
+        rule="a 12-record, 3-partition generated input; every command as its own OS process; kill before the k-th file-system "
+        "mutation (quick: a stratified sample of the points of a fresh partition, a re-run partition; all points of finalise) x "
+        "{no tear, tear to 0, tear to half}; random histories over {partition j, finalise} (length <= 8, repeats, omissions, "
+        "wrong order, <= 2 kills); after every command the directory is abstracted to the model state and compared with the "
+        "model's transition / invariant, loaded stores are compared with the reference, every history ends with a recovery. "
+        "distinct = distinct history; non-trivial = at least one kill",
+        status="partial: the theorems cover every history over an idealised file system (atomic create/unlink, a killed write "
+        "leaves a prefix); that a torn JSON / pickle / Blosc file does not load is exercised here and under C18, not proved",
+        assumptions=["the kernel's file system: a kill leaves a prefix of the last write; unlink/rename are atomic",
+                     "a Torn metadata.json / summary / chunk does not load (json, pickle, Blosc)"],
+    ),
+    "C06": dict(
+        units=[],
+        props_files=["Props/C06.v"],
+        driver="c06",
+        rule="a 12-record input encoded in 3 partitions; every command as its own OS process; kill before the k-th mutation "
+        "(several hundred per step: a stratified sample incl. the whole directory-swap window of a re-run) x {no tear, tear to 0, "
+        "tear to half}; random histories over {partition j, finalise} (<= 7 commands, repeats, omissions, wrong order, <= 2 kills); "
+        "the directory tree is abstracted to the model state after every command and compared with the model's transition / "
+        "invariant; finished stores are compared with the reference; every history ends with a recovery. distinct = distinct "
+        "history; non-trivial = at least one kill",
+        status="partial: as C05 (idealised file system: atomic rename of directories, prefix-on-kill); the model elides rmtree(wip) "
+        "and the cleanup of stale_p<j>",
+        assumptions=["rename of a directory is atomic and moves the subtree; a kill leaves a prefix of the last write",
+                     "zarr writes a chunk as temp file + replace; consolidate_metadata writes .zmetadata last"],
+    ),
 }
